@@ -41,25 +41,94 @@ def lex_replay(o):
 
 
 def link_lexer(ctx):
-    out = []
     fn_main = LEXFN + "ExperimentLexer"
-    fn_bc = LEXFN + "BlockComment"
     try:
         T = ctx.memo("lex_tables", lambda: Tables(native))
     except Exception:
         return [Obl("lex:tables/dump", fn_main, "regex", "live lexer tables can be dumped", status=ERROR, backend="native",
                     detail=traceback.format_exc()[-1500:], props=("C02", "C05", "C06", "C07", "C08"))]
+    return lexer_obls(T, ctx)
+
+
+class _MiniCtx:
+    def __init__(self):
+        self.cache, self.notes = {}, []
+
+    def memo(self, key, fn):
+        if key not in self.cache:
+            self.cache[key] = fn()
+        return self.cache[key]
+
+
+def table_canary(name, edit, expect):
+    """in-memory mutation of the DUMPED tables (never of /repo): edit(dump, reparse) changes patterns / order"""
+    import copy
+    from vcore.properties import Canary
+
+    def build(ctx):
+        T0 = ctx.memo("lex_tables", lambda: Tables(native))
+        T = copy.copy(T0)
+        T.dump = copy.deepcopy(T0.dump)
+
+        def reparse(pattern):
+            return native.one({"cmd": "parse_patterns", "patterns": [pattern]})[0]
+        try:
+            edit(T.dump, reparse)
+        except LookupError as e:
+            ctx.notes.append("canary %s skipped: %s" % (name, e))
+            return [Obl("canary:%s/not-applicable" % name, "table", "canary", str(e), status=REFUTED, backend="n/a")]
+        obls = lexer_obls(T, _MiniCtx(), tag="~" + name)
+        return [o for o in obls if __import__("re").search(expect, o.id)]
+    return Canary(name, build, expect + "|not-applicable")
+
+
+def _rule(dump, state, name):
+    for r in dump["states"][state]["rules"]:
+        if r["name"] == name:
+            return r
+    raise LookupError("no rule %s in %s" % (name, state))
+
+
+def edit_pattern(state, name, old, new):
+    def edit(dump, reparse):
+        r = _rule(dump, state, name)
+        if old not in r["pattern"]:
+            raise LookupError("pattern of %s no longer contains %r" % (name, old))
+        r["pattern"] = r["pattern"].replace(old, new)
+        r["tree"] = reparse(r["pattern"])
+    return edit
+
+
+def edit_move_before(state, name, before):
+    def edit(dump, reparse):
+        rules = dump["states"][state]["rules"]
+        r = _rule(dump, state, name)
+        b = _rule(dump, state, before)
+        if rules.index(r) > rules.index(b):
+            raise LookupError("%s is not before %s" % (name, before))
+        rules.remove(r)
+        rules.insert(rules.index(b) + 1, r)
+    return edit
+
+
+def lexer_obls(T, ctx, tag=""):
+    out = []
+    fn_main = LEXFN + "ExperimentLexer"
+    fn_bc = LEXFN + "BlockComment"
     al = T.alpha
     k = al.k
     ctx.notes.append("rxvc alphabet: %(classes)d classes from %(sets)d character sets; product interpreter %(python)s, Unicode %(unicode)s" % T.alpha_info)
     states = T.dump["states"]
     allp = ("C02", "C05", "C06", "C07", "C08")
+    out.append(Obl("xcheck:lexer/character-set-semantics-vs-re", fn_main, "xcheck", "rxvc's reading of every character set agrees with the real `re` on class representatives + sampled code points",
+                   status=DISCHARGED if not T.alpha_xcheck["mismatches"] else ERROR, backend="native-bounded", bounded=True,
+                   detail=str(T.alpha_xcheck), props=allp, meta={"coverage": {"evaluations": T.alpha_xcheck["checked"]}}))
     if "ExperimentLexer" not in states:
         return [Obl("lex:tables/main-state", fn_main, "regex", "class ExperimentLexer exists", status=UNDECIDED, backend="native", detail="missing", props=allp)]
     main = states["ExperimentLexer"]
     # configuration guards of the assumed tokenize contract
     cfg_ok = main["ignore"] == "" and not main["literals"] and main["reflags"] == 0 and not main["remapping"]
-    out.append(Obl("lex:main/config(ignore='',literals={},reflags=0,no remapping)", fn_main, "regex",
+    out.append(Obl("lex:main%s/" % tag + "config(ignore='',literals={},reflags=0,no remapping)", fn_main, "regex",
                    "the table-level escape hatches of sly (ignore chars, literals, flags, remapping) are unused",
                    status=DISCHARGED if cfg_ok else UNDECIDED, backend="table", detail=str({x: main[x] for x in ("ignore", "literals", "reflags", "remapping")}), props=allp))
     try:
@@ -67,7 +136,7 @@ def link_lexer(ctx):
         RP = ctx.memo("lex_realpicks", lambda: Picks(real_rules, al))
         FP, ref_rules = ctx.memo("lex_refpicks", lambda: ref_picks(T))
     except Unsupported as e:
-        out.append(Obl("lex:main/in-subset", fn_main, "regex", "every rule pattern is inside the supported regex subset",
+        out.append(Obl("lex:main%s/" % tag + "in-subset", fn_main, "regex", "every rule pattern is inside the supported regex subset",
                        status=UNDECIDED, backend="rxvc", detail=str(e), props=allp))
         return out
     meta = {r["name"]: r for r in main["rules"]}
@@ -84,13 +153,13 @@ def link_lexer(ctx):
         pk = RP.pick[name]
         real_tok_union = real_tok_union | pk
         w = pk.witness()
-        out.append(Obl("lex:main/%s.reachable" % name, fn_main, "regex", "rule %s is not dead (some text makes the scanner take it)" % name,
+        out.append(Obl("lex:main%s/" % tag + "%s.reachable" % name, fn_main, "regex", "rule %s is not dead (some text makes the scanner take it)" % name,
                        status=DISCHARGED if w is not None else REFUTED, backend="dfa", detail="witness %r" % (al.word(w) if w is not None else None),
                        props=tags_for(name) + ("C08",), model=None if w is not None else {"witness": ""}))
         if meta[name]["ignored"]:
             # a trivia consumer: whitespace chunk or one complete line comment
             ok_lang = ws_chunk | FP["LINE_COMMENT"]
-            out.append(emptiness_obl("lex:main/%s.consumes-only-trivia" % name, fn_main,
+            out.append(emptiness_obl("lex:main%s/" % tag + "%s.consumes-only-trivia" % name, fn_main,
                                      "ignored rule %s only ever consumes whitespace or one complete // comment" % name,
                                      pk - ok_lang, al, ("C08", "C06"), replay=lex_replay))
             ign_ws = ign_ws | (pk & ws_chunk)
@@ -98,26 +167,26 @@ def link_lexer(ctx):
             continue
         ref_name = "BLOCK_OPEN" if name == opener else name
         if ref_name not in FP:
-            out.append(Obl("lex:main/%s.documented" % name, fn_main, "regex", "token type %s is in the documented table" % name,
+            out.append(Obl("lex:main%s/" % tag + "%s.documented" % name, fn_main, "regex", "token type %s is in the documented table" % name,
                            status=REFUTED, backend="table", detail="not documented", props=("C06",), model={"witness": al.word(w or [])}))
             continue
         tg = ("C08",) if name == opener else tags_for(name)
-        out.append(emptiness_obl("lex:main/%s.real⊆ref" % name, fn_main,
+        out.append(emptiness_obl("lex:main%s/" % tag + "%s.real⊆ref" % name, fn_main,
                                  "whenever the real scanner takes %s with match m, the documented scanner does too" % name,
                                  pk - FP[ref_name], al, tg, replay=lex_replay))
-        out.append(emptiness_obl("lex:main/%s.ref⊆real" % name, fn_main,
+        out.append(emptiness_obl("lex:main%s/" % tag + "%s.ref⊆real" % name, fn_main,
                                  "whenever the documented scanner takes %s with match m, the real scanner does too" % name,
                                  FP[ref_name] - pk, al, tg, replay=lex_replay))
     for tname in FP:
         if tname in ("WS", "LINE_COMMENT", "BLOCK_OPEN"):
             continue
         if tname not in RP.pick:
-            out.append(Obl("lex:main/%s.implemented" % tname, fn_main, "regex", "documented token %s has a rule" % tname, status=REFUTED,
+            out.append(Obl("lex:main%s/" % tag + "%s.implemented" % tname, fn_main, "regex", "documented token %s has a rule" % tname, status=REFUTED,
                            backend="table", detail="no rule of that name", props=tags_for(tname), model={"witness": al.word(FP[tname].witness() or [])}, replay=lex_replay))
     # trivia coverage: every text the documented scanner starts with trivia on is handled by an ignored rule
-    out.append(emptiness_obl("lex:main/whitespace.covered", fn_main, "a text starting with whitespace is consumed by an ignored whitespace rule",
+    out.append(emptiness_obl("lex:main%s/" % tag + "whitespace.covered", fn_main, "a text starting with whitespace is consumed by an ignored whitespace rule",
                              erase_marker(FP["WS"], al) - erase_marker(ign_ws, al), al, ("C08", "C06"), replay=lex_replay))
-    out.append(emptiness_obl("lex:main/line-comment.ref⊆real", fn_main, "a complete // comment is consumed as one ignored chunk",
+    out.append(emptiness_obl("lex:main%s/" % tag + "line-comment.ref⊆real", fn_main, "a complete // comment is consumed as one ignored chunk",
                              FP["LINE_COMMENT"] - ign_lc, al, ("C08",), replay=lex_replay))
     # error equivalence: the scanner has no pick exactly where the documented scanner rejects
     ref_union = DFA.empty(k)
@@ -125,9 +194,9 @@ def link_lexer(ctx):
         ref_union = ref_union | d
     nonempty = dfa.plus(DFA.sym(k, al.all()))
     real_dom, ref_dom = erase_marker(real_tok_union, al), erase_marker(ref_union, al)
-    out.append(emptiness_obl("lex:main/error.real-rejects⊆ref-rejects", fn_main, "where the real scanner calls error(), the documented scanner rejects",
+    out.append(emptiness_obl("lex:main%s/" % tag + "error.real-rejects⊆ref-rejects", fn_main, "where the real scanner calls error(), the documented scanner rejects",
                              (nonempty - real_dom) - (nonempty - ref_dom), al, ("C06", "C07"), replay=lex_replay))
-    out.append(emptiness_obl("lex:main/error.ref-rejects⊆real-rejects", fn_main, "where the documented scanner rejects, the real scanner calls error()",
+    out.append(emptiness_obl("lex:main%s/" % tag + "error.ref-rejects⊆real-rejects", fn_main, "where the documented scanner rejects, the real scanner calls error()",
                              (nonempty - ref_dom) - (nonempty - real_dom), al, ("C06",), replay=lex_replay))
     # number syntax facts used by the token-function contracts (assumed contracts of float()/int() need them)
     dig = DFA.sym(k, al.symbols(["IN", [["CATEGORY", "CATEGORY_DIGIT"]]]))
@@ -135,7 +204,7 @@ def link_lexer(ctx):
     for nm, syn in (("NON_NEG_FLOAT", dfa.cat(dfa.plus(dig), dot, dfa.plus(dig))), ("NON_NEG_INTEGER", dfa.plus(dig))):
         if nm in RP.pick:
             lang = prefix_lang(RP.pick[nm], al)
-            out.append(emptiness_obl("lex:main/%s.lexeme-syntax" % nm, fn_main, "every %s lexeme has the decimal syntax float()/int() accept" % nm,
+            out.append(emptiness_obl("lex:main%s/" % tag + "%s.lexeme-syntax" % nm, fn_main, "every %s lexeme has the decimal syntax float()/int() accept" % nm,
                                      lang - syn, al, ("C05",), replay=lex_replay))
     # ------------------------------------------------------------------ block comment state
     if "BlockComment" in states:
@@ -144,7 +213,7 @@ def link_lexer(ctx):
             bc_rules = [Rule(r["name"], r["pattern"], r["tree"], al) for r in bc["rules"]]
             BP = Picks(bc_rules, al)
         except Unsupported as e:
-            out.append(Obl("lex:comment/in-subset", fn_bc, "regex", "comment-state patterns inside the supported regex subset",
+            out.append(Obl("lex:comment%s/" % tag + "in-subset", fn_bc, "regex", "comment-state patterns inside the supported regex subset",
                            status=UNDECIDED, backend="rxvc", detail=str(e), props=("C08",)))
             return out
         star_c = DFA.sym(k, al.symbols(["LITERAL", 42]))
@@ -161,25 +230,25 @@ def link_lexer(ctx):
         for r in bc_rules:
             pk = BP.pick[r.name]
             w = pk.witness()
-            out.append(Obl("lex:comment/%s.reachable" % r.name, fn_bc, "regex", "comment-state rule %s is not dead" % r.name,
+            out.append(Obl("lex:comment%s/" % tag + "%s.reachable" % r.name, fn_bc, "regex", "comment-state rule %s is not dead" % r.name,
                            status=DISCHARGED if w is not None else REFUTED, backend="dfa", detail="witness %r" % (al.word(w) if w is not None else None), props=("C08",)))
             if r.name == ender:
-                out.append(emptiness_obl("lex:comment/END.stops-at-first-*/", fn_bc, "the END step consumes a chunk whose only `*/` is its suffix (the comment ends at the FIRST `*/`)",
+                out.append(emptiness_obl("lex:comment%s/" % tag + "END.stops-at-first-*/", fn_bc, "the END step consumes a chunk whose only `*/` is its suffix (the comment ends at the FIRST `*/`)",
                                          pk - end_ok, al, ("C08",), replay=comment_replay))
-                out.append(emptiness_obl("lex:comment/END.taken-when-line-has-*/", fn_bc, "if the rest of the line contains `*/`, the END step is taken (up to the first `*/`)",
+                out.append(emptiness_obl("lex:comment%s/" % tag + "END.taken-when-line-has-*/", fn_bc, "if the rest of the line contains `*/`, the END step is taken (up to the first `*/`)",
                                          end_ok - pk, al, ("C08",), replay=comment_replay))
             else:
                 # any other step must consume a chunk without `*/` and may not split a `*/` pair
                 bad = dfa.cat(has_close, mk, allw) | dfa.cat(allw, star_c, mk, slash_c, allw)
-                out.append(emptiness_obl("lex:comment/%s.never-swallows-*/" % r.name, fn_bc, "a non-END step never consumes or splits a `*/`",
+                out.append(emptiness_obl("lex:comment%s/" % tag + "%s.never-swallows-*/" % r.name, fn_bc, "a non-END step never consumes or splits a `*/`",
                                          pk & bad, al, ("C08",), replay=comment_replay))
         tot = DFA.empty(k)
         for r in bc_rules:
             tot = tot | BP.pick[r.name]
-        out.append(emptiness_obl("lex:comment/total(no error inside comments)", fn_bc, "every non-empty remaining text is consumed by some comment-state rule",
+        out.append(emptiness_obl("lex:comment%s/" % tag + "total(no error inside comments)", fn_bc, "every non-empty remaining text is consumed by some comment-state rule",
                                  dfa.plus(DFA.sym(k, al.all())) - erase_marker(tot, al), al, ("C08", "C06"), replay=comment_replay))
     else:
-        out.append(Obl("lex:comment/state-exists", fn_bc, "regex", "block comment state exists", status=UNDECIDED, backend="table", detail="no BlockComment class", props=("C08",)))
+        out.append(Obl("lex:comment%s/" % tag + "state-exists", fn_bc, "regex", "block comment state exists", status=UNDECIDED, backend="table", detail="no BlockComment class", props=("C08",)))
     return out
 
 
@@ -287,5 +356,10 @@ def bounded_lex(ctx, T):
     def run():
         r = native.one({"cmd": "lex_diff", "pool": core if ctx.tier == "quick" else want, "maxlen": 3 if ctx.tier == "quick" else 3, "texts": texts}, timeout=3000)
         return r["failures"], {"evaluations": r["evaluations"], "bound": "all strings of length <= 3 over %d characters + %d hand-picked texts" % (len(core if ctx.tier == "quick" else want), len(texts))}
-    return [bounded_obl("bounded:lexer/tokenize-vs-Lex_ref", LEXFN + "ExperimentLexer", "real tokenize == documented scanner (token types, values, rejection) on all short strings",
+    def run_trivia():
+        r = native.one({"cmd": "trivia_diff", "seed": ctx.seed, "random_variants": 20 if ctx.tier == "quick" else 200}, timeout=3000)
+        return r["failures"], {"evaluations": r["evaluations"], "programs": r["programs"], "bound": r["bound"]}
+    extra = [bounded_obl("bounded:lexer/trivia-variants-same-AST", LEXFN + "ExperimentLexer", "inserting whitespace / comments at token boundaries leaves parse_source's AST unchanged",
+                         ("C08",), run_trivia)]
+    return extra + [bounded_obl("bounded:lexer/tokenize-vs-Lex_ref", LEXFN + "ExperimentLexer", "real tokenize == documented scanner (token types, values, rejection) on all short strings",
                         ("C02", "C05", "C06", "C07", "C08"), run)]
